@@ -435,24 +435,54 @@ CRC_REF = {
 def rule_crc(ctx) -> None:
     chk = ctx.chk
     m = ctx.m(CRC)
-    tbl = ctx.prog.module_consts(m).get("CRC_ALGORITHMS")
-    if not isinstance(tbl, ast.Dict):
-        raise AnalysisError("C09.crc-table: CRC_ALGORITHMS literal not found")
+    consts = ctx.prog.module_consts(m)
+    tbl_node = consts.get("CRC_ALGORITHMS")
+    if tbl_node is None:
+        raise AnalysisError("C09.crc-table: CRC_ALGORITHMS not found")
     cfg = ctx.cls(CRC, "CrcConfig")
     fields = list(cfg.annots)
+
+    # the table is evaluated, however it is written (a literal, a comprehension over rows, named constants for the polynomials):
+    # module-level names are evaluated from their defining expressions, CrcAlg members are enum models, CrcConfig(...) binds its fields
+    class _Shim:
+        module, cls, node = m, None, m.tree
+    base_sym = ctx.fold_sym(_Shim)
+    active: set = set()
+
+    def cv_cfg(c: ast.Call, ev):
+        if A.call_name(c) == "CrcConfig":
+            got_ = {}
+            for i, a in enumerate(c.args):
+                got_[fields[i]] = ev.ev(a)
+            for kw in c.keywords:
+                got_[kw.arg] = ev.ev(kw.value)
+            return got_
+        return ordereval.NOT_MODELLED
+
+    def sym(x):
+        if isinstance(x, ast.Name) and x.id in consts and x.id not in active and x.id != "CRC_ALGORITHMS":
+            active.add(x.id)
+            try:
+                return ordereval.Evaluator({}, sym, call_value=cv_cfg).ev(consts[x.id])
+            except ordereval.Unsupported:
+                return None
+            finally:
+                active.discard(x.id)
+        return base_sym(x)
+    try:
+        table = ordereval.Evaluator({}, sym, call_value=cv_cfg).ev(tbl_node)
+    except ordereval.Unsupported as ex:
+        raise AnalysisError(f"C09.crc-table: CRC_ALGORITHMS left the fragment: {ex}")
+    if not isinstance(table, dict) or not table:
+        raise AnalysisError("C09.crc-table: CRC_ALGORITHMS does not evaluate to a table")
     seen = set()
-    for k, v in zip(tbl.keys, tbl.values):
-        name = norm(k).split(".")[-1]
-        if not (isinstance(v, ast.Call) and A.call_name(v) == "CrcConfig"):
+    for k, got in table.items():
+        name = getattr(k, "name", None) or str(k)
+        if not isinstance(got, dict):
             raise AnalysisError("C09.crc-table: entry is not CrcConfig(...)")
-        got = {}
-        for i, a in enumerate(v.args):
-            got[fields[i]] = ctx.prog.fold(a, m)
-        for kw in v.keywords:
-            got[kw.arg] = ctx.prog.fold(kw.value, m)
         seen.add(name)
         if name in CRC_REF:
-            chk.decide(got == CRC_REF[name], "C09.crc-table", f"{CRC}::CRC_ALGORITHMS[{name}]", f"catalogue parameters {got} (crcmod convention)", f"{got}", f"{CRC_REF[name]}", A.loc(CRC, v))
+            chk.decide(got == CRC_REF[name], "C09.crc-table", f"{CRC}::CRC_ALGORITHMS[{name}]", f"catalogue parameters {got} (crcmod convention)", f"{got}", f"{CRC_REF[name]}", A.loc(CRC, tbl_node))
     chk.decide(set(CRC_REF) <= seen, "C09.crc-table", f"{CRC}::CRC_ALGORITHMS", "the three named CRCs are present", f"present: {sorted(seen)}", f"{sorted(CRC_REF)}", CRC)
     init = ctx.own(CRC, "Crc", "__init__")
     st = {norm(s.targets[0]): norm(s.value) for s in A.walk_no_nested(init.node) if isinstance(s, ast.Assign)}
